@@ -5,7 +5,7 @@
 id="$1"; dir="$2"; wt=/tmp/wt-confirm
 export RUSTC_BOOTSTRAP=1 CARGO_NET_OFFLINE=true
 log="$dir/confirm.log"; : > "$log"
-if [ ! -d $wt ]; then git -C /repo worktree add -q --detach $wt HEAD && cp -r /repo/target $wt/target; fi
+if [ ! -d $wt ]; then git -C /repo worktree add -q --detach $wt HEAD && cp -r /tmp/target-base $wt/target; fi
 cd $wt && git checkout -q -- . && git clean -qfd -e target && git checkout -q --detach "$(git -C /repo rev-parse HEAD)"
 cp "$dir/demo.rs" tests/seed_demo.rs
 echo "== demo on unmodified tree" >> "$log"
